@@ -77,7 +77,7 @@ type C02 struct {
 func (e *C02) ID() string    { return "C02" }
 func (e *C02) Level() string { return "exploration" }
 func (e *C02) Rule() string {
-	return "each case is one input (corpus file, 1-3 structure-aware malformations of one, a loop-targeted shape such as non-SOI markers / FF runs / zero-size boxes and iinf entries / wrapping PNG lengths / partial TIFF signatures / kilobytes of XMP white space, a size-field attack, or random bytes behind a plausible header; up to 1 MiB in the thorough tier; every 24th case one tiny unit - an 8..32-byte box of every known type in every container context, a minimal JPEG segment, PNG chunk, IFD entry, one-entry IFD chain or XMP token - tiled to 150..900 KB) run through its natural entry points plus two random ones over an instrumented io.ReadSeeker. Refuted by: bytes requested (sum of len(p) over reads issued before end of input) > 4*len+64KiB, reads issued at end of input (which deliver nothing) > len/8+512, seeks > len/8+64, or the call still running after a CPU-time budget of 2s+50us*len (process rusage, not wall clock). Non-trivial: the call requested more than 64 bytes; distinct = (entry, outcome class, log2 bucket of requested/len)."
+	return "each case is one input (corpus file, 1-3 structure-aware malformations of one, a loop-targeted shape such as non-SOI markers / FF runs / zero-size boxes and iinf entries / wrapping PNG lengths / partial TIFF signatures / kilobytes of XMP white space, a size-field attack, or random bytes behind a plausible header; up to 1 MiB in the thorough tier; every 24th case one tiny unit - an 8..32-byte box of every known type in every container context, a minimal JPEG segment, PNG chunk, IFD entry, one-entry IFD chain or XMP token - tiled to 150..900 KB) run through its natural entry points plus two random ones over an instrumented io.ReadSeeker. Refuted by: bytes requested (sum of len(p) over all reads issued, those issued again after the end of the input included) > 4*len+64KiB (the constant once per library call for the harness's own composition of the ISOBMFF reader: ReadFTYP + up to five ReadMetadata), reads issued at end of input > len/8+512, seeks > len/8+64, or the call still running after a CPU-time budget of 2s+50us*len (process rusage, not wall clock). Non-trivial: the call requested more than 64 bytes; distinct = (entry, outcome class, log2 bucket of requested/len)."
 }
 func (e *C02) Assumptions() []string {
 	return []string{"termination is restated as bounded progress: a CPU-time budget three to four orders of magnitude above the normal cost",
@@ -137,10 +137,17 @@ func (e *C02) Run(c *core.Ctx, idx int) {
 			_ = text
 			continue
 		}
-		if rs.Requested > 4*n+64*1024 {
-			c.Rec.Violation("work:bytes:"+ent.Name, fmt.Sprintf("%s requested %d bytes from the reader for a %d-byte input (bound %d): %s", ent.Name, rs.Requested, n, 4*n+64*1024, what),
-				map[string]any{"entry": ent.Name, "input": what, "requested": rs.Requested, "len": n, "reads": rs.Reads, "seeks": rs.Seeks})
+		// every byte asked of the reader counts, also what is asked of it again after it has reported
+		// the end of the input (those requests deliver nothing, but they are requests)
+		libCalls := int64(1)
+		if strings.HasPrefix(ent.Name, "isobmff/") {
+			libCalls = 6 // the harness's composition: ReadFTYP and up to five ReadMetadata calls, each a call of its own
 		}
+		if req := rs.Requested + rs.RequestedAtEOF; req > 4*n+libCalls*64*1024 {
+			c.Rec.Violation("work:bytes:"+ent.Name, fmt.Sprintf("%s requested %d bytes from the reader (%d of them after the end of the input) for a %d-byte input (bound %d): %s", ent.Name, req, rs.RequestedAtEOF, n, 4*n+libCalls*64*1024, what),
+				map[string]any{"entry": ent.Name, "input": what, "requested": rs.Requested, "requested_after_eof": rs.RequestedAtEOF, "len": n, "reads": rs.Reads, "seeks": rs.Seeks})
+		}
+		c.Rec.Max("requested_incl_eof_ratio", float64(rs.Requested+rs.RequestedAtEOF)/float64(4*n+64*1024))
 		if int64(rs.EOFReads) > n/8+512 {
 			c.Rec.Violation("work:eofreads:"+ent.Name, fmt.Sprintf("%s kept reading at end of input: %d reads after EOF for a %d-byte input (bound %d): %s", ent.Name, rs.EOFReads, n, n/8+512, what),
 				map[string]any{"entry": ent.Name, "input": what, "eof_reads": rs.EOFReads, "len": n})
@@ -323,4 +330,11 @@ func (e *C14) Run(c *core.Ctx, idx int) {
 	if c.Rec.WantSample() && idx%41 == 0 {
 		c.Rec.Sample(map[string]any{"input": desc, "len": len(data)})
 	}
+}
+
+func firstWord(s string) string {
+	if i := strings.IndexByte(s, ' '); i > 0 {
+		return s[:i]
+	}
+	return s
 }
